@@ -344,13 +344,20 @@ def correspond(ctx, proof_ok=True):
             if all('coeff' in laws.get(nm, {}) for nm in ('y2', 'comb', 'zw')):
                 a_, b_ = c['ab']
                 lin = [a_ * u + b_ * v for u, v in zip(c1, laws['y2']['coeff'])]
-                if not close_vec(laws['comb']['coeff'], lin, 1e-7):
+                unit_ = (c.get('scale') or [1.0])[0]
+
+                def close_norm(a, b):
+                    tol = 1e-7 * (unit_ + max([abs(v) for v in b] or [0.0]))
+                    return len(a) == len(b) and all(abs(x - y) <= tol for x, y in zip(a, b))
+                if not close_norm(laws['comb']['coeff'], lin):
                     viol('C09:fit:law:linearity', 'fit(a*y1+b*y2) differs from a*fit(y1)+b*fit(y2)', c, r)
-                if not close_vec(laws['zw']['coeff'], c1, 1e-7):
+                if not close_norm(laws['zw']['coeff'], c1):
                     viol('C09:fit:law:zero-weight', 'coefficients change when y is altered at zero-weight points', c, r)
             else:
                 viol('C09:fit:law:impl-error', 'a law fit failed: %s' % {k: v.get('err') for k, v in laws.items()}, c, r)
-            if c['poly'] and not close_vec(r['yfit'], c['ys'], 1e-7):
+            unit = (c.get('scale') or [1.0])[0]
+            tol_poly = 1e-7 * (unit + max(abs(v) for v in c['ys']))          # norm-wise, in the units of the data
+            if c['poly'] and not (len(r['yfit']) == len(c['ys']) and all(abs(a - b) <= tol_poly for a, b in zip(r['yfit'], c['ys']))):
                 viol('C09:fit:law:polynomial', 'a polynomial of degree < nord is not reproduced', c, r)
         elif c['f'] == 'fit':
             # ill-posed: outcome class
